@@ -429,6 +429,46 @@ Proof.
   unfold ins_keep in Hk. apply andb_true_iff in Hk. destruct Hk as [Hk _]. apply andb_true_iff in Hk. tauto.
 Qed.
 
+(* ---- marginalisation over augment draws ------------------------------------------------------------------------------ *)
+Lemma blocks_fuel_concat : forall {A} (n : nat) (gs : list (list A)) (fuel : nat),
+  0 < n -> Forall (fun g => length g = n) gs -> length gs <= fuel -> blocks_fuel fuel n (concat gs) = gs.
+Proof.
+  intros A n gs. induction gs as [|g gs IH]; intros fuel Hn HF HL.
+  - destruct fuel; reflexivity.
+  - inversion HF as [|? ? Hg HF']; subst. destruct fuel as [|fuel]; [simpl in HL; lia|].
+    simpl. destruct (g ++ concat gs) as [|y r] eqn:E.
+    + destruct g; [simpl in Hn; lia|discriminate].
+    + rewrite <- E. rewrite firstn_app, Nat.sub_diag, firstn_all. simpl. rewrite app_nil_r.
+      rewrite skipn_app, Nat.sub_diag, skipn_all. simpl. f_equal. apply IH; auto. simpl in HL. lia.
+Qed.
+Lemma concat_length_groups : forall {A} (n : nat) (gs : list (list A)),
+  Forall (fun g => length g = n) gs -> length (concat gs) = n * length gs.
+Proof.
+  intros A n gs H. induction H as [|g gs Hg _ IH]; simpl; [lia|]. rewrite app_length, IH, Hg. lia.
+Qed.
+Lemma blocks_concat : forall {A} (n : nat) (gs : list (list A)),
+  0 < n -> Forall (fun g => length g = n) gs -> blocks n (concat gs) = gs.
+Proof.
+  intros A n gs Hn HF. unfold blocks. apply blocks_fuel_concat; auto.
+  rewrite (concat_length_groups n gs HF). nia.
+Qed.
+(* every point's marginalised value is the reduction over ITS OWN n_marg terms, for any batch and any n_marg >= 1 *)
+Lemma marginalise_own_point : forall {X A B} (reduce : list A -> B) (n : nat) (g : X -> list A) (l : list X),
+  0 < n -> (forall x, length (g x) = n) ->
+  marginalise reduce n (flat_map g l) = map (fun x => reduce (g x)) l.
+Proof.
+  intros X A B reduce n g l Hn Hg. unfold marginalise. rewrite flat_map_concat_map.
+  rewrite blocks_concat; auto.
+  - apply map_map.
+  - apply Forall_forall. intros y Hy. apply in_map_iff in Hy. destruct Hy as [x [<- _]]. apply Hg.
+Qed.
+(* the transposed grouping (reshape(n_marg, -1), axis 0) mixes the terms of different points *)
+Lemma strided_refuted : exists (n : nat) (l : list nat),
+  let terms := flat_map (fun x => map (fun k => 10 * x + k) (seq 0 n)) l in
+  blocks n terms = map (fun x => map (fun k => 10 * x + k) (seq 0 n)) l /\
+  strided 0 n terms <> map (fun x => map (fun k => 10 * x + k) (seq 0 n)) l.
+Proof. exists 2, [1; 2]. vm_compute. split; [reflexivity|discriminate]. Qed.
+
 (* ---- draws ------------------------------------------------------------------------------------------------------------ *)
 Fixpoint draws_rev (k : nat) (r : list nat) : list (nat * bool) :=
   match k, r with
